@@ -49,7 +49,9 @@ def run(tier, replay=None):
         "digest = status | Content-Type | sha256(body); other response headers (request ids, dates, limiter counters, Expires) are not compared",
         "key = URL (path + query without nowMS) '@' nowMS; all requests use the Host header example.com (the MPD's BaseURL/Location depend on Host by design)",
         "urlgen/assets pages, /reqcount, /metrics, /vod and the ingest API are not functions of (URL, time) by design: race clause only",
-        "race clause: Go race detector (sound, not complete) + runtime 'concurrent map' check on a child process built with -race; "
+        "race clause: Go race detector (sound, not complete) + runtime 'concurrent map' check on a child process built with -race; the "
+        "GET-report / session-append overlap of the model's counterexample is forced through the gates ingest:get_report / ingest:sess_report "
+        "(both goroutines held, released together: unordered for the detector), all other overlaps are left to unsynchronised goroutines; "
         "cmafIngesterMgr.Close() is not reachable by a request and is covered by the model only",
     ]
     c.trusted = ["Go race detector", "harness/drive/c07 recorder (sha256 digests, partition by key hash)", "checks/c07.py merge of the two "
@@ -69,16 +71,18 @@ def run(tier, replay=None):
             ("Stateless", f"Stateless_pure_{tier}.cfg", dict(workers=4, coverage=False)),
             ("Stateless", "Stateless_shared_quick.cfg", dict(workers=1, expect="violation", expect_violated=("Accepted",), coverage=False)),
             ("Stateless", "Stateless_cache_quick.cfg", dict(workers=1, expect="violation", expect_violated=("Accepted",), coverage=False)),
-            J("now_cex", expect="violation", expect_violated=("NoConflict",), coverage=False),
-            J("now_cex_report", expect="violation", expect_violated=("NoConflict_report",), coverage=False),
-            J(f"now_maps_{tier}", required_actions=req),
-            J("fixed_quick", required_actions=req),
-            J("fixed_close_quick", required_actions=("cl_c2", "cl_i2", "cl_s2", "cl_u")),
+            # the code as it is (maps under cm.mu, state/report under the per-session mutex): every invariant holds
+            J("code_quick", required_actions=req),
+            J("code_close_quick", required_actions=("cl_c2", "cl_i2", "cl_s2", "cl_u")),
+            # documented design counterexamples: the code before bff5ff9 (state/report without a lock)
+            J("sess_cex", expect="violation", expect_violated=("NoConflict",), coverage=False),
+            J("sess_cex_report", expect="violation", expect_violated=("NoConflict_report",), coverage=False),
         ]
         if thorough:
-            jobs += [J("fixed_thorough", required_actions=req), J("fixed_close_thorough", required_actions=req + ("cl_s2",)),
-                     J("fixed_one3", required_actions=req), J("fixed_wide", coverage=False, timeout=1500, heap="10g"),
-                     J("now_cex_state", expect="violation", expect_violated=("NoConflict_state",), coverage=False),
+            jobs += [J("code_thorough", required_actions=req), J("code_close_thorough", required_actions=req + ("cl_s2",)),
+                     J("code_one3", required_actions=req), J("code_wide", coverage=False, timeout=1500, heap="10g"),
+                     J("sess_cex_state", expect="violation", expect_violated=("NoConflict_state",), coverage=False),
+                     # documented design counterexamples: the code before the C16 fixes (abe3a53, 23e3c73)
                      J("old_cex_ingesters", expect="violation", expect_violated=("NoConflict_ingesters",), coverage=False),
                      J("old_cex_cancels", expect="violation", expect_violated=("NoConflict_cancels",), coverage=False),
                      J("old_cex_state", expect="violation", expect_violated=("NoConflict_state",), coverage=False),
@@ -124,6 +128,8 @@ def run(tier, replay=None):
         ing = {}
     elif min(ing.get("sessions_created", 0), ing.get("get:200", 0), ing.get("step:200", 0), ing.get("delete:200", 0)) <= 0:
         vac.append(f"race child: ingest API not exercised: {ing}")
+    elif ing.get("forced_overlaps", 0) <= 0:
+        vac.append(f"race child: the report overlap was not forced (gates ingest:sess_report / ingest:get_report not reached): {ing}")
 
     # ---- one trace: per part the events of the main process, then those of the race child; last part: the detector's reports
     pm, pr = split_parts(main_trace), split_parts(race_trace, tolerate_truncation=True)
@@ -172,8 +178,9 @@ def run(tier, replay=None):
     c.extra["race_child"] = {"rc": rc, "reports": reports, **{k: v for k, v in str_.items() if k not in drop}}
     c.extra["vod_assets"] = st0.get("assets")
     c.extra["model_results"] = mres
+    c.extra["forced_overlaps"] = ing.get("forced_overlaps", 0)
     c.extra["design_counterexamples"] = {
-        "code now: GET reads ing.report while the session goroutine appends (NoConflict, NoConflict_report)": [mres.get("IngestMgrImpl/IngestMgrImpl_now_cex.cfg"), mres.get("IngestMgrImpl/IngestMgrImpl_now_cex_report.cfg")],
+        "code before bff5ff9 (documented): GET reads ing.report while the session goroutine appends (NoConflict, NoConflict_report)": [mres.get("IngestMgrImpl/IngestMgrImpl_sess_cex.cfg"), mres.get("IngestMgrImpl/IngestMgrImpl_sess_cex_report.cfg")],
         "oracle sensitivity: shared mutable structure / cache keyed without the full configuration are rejected": [mres.get("Stateless/Stateless_shared_quick.cfg"), mres.get("Stateless/Stateless_cache_quick.cfg")],
     }
     return c.finish()
